@@ -1131,7 +1131,7 @@ class SyncProjectsCloneOrSync(Contract):
 
     def cases(self):
         return [{"dry_run": d, "deep": dp, "recursive": r, "exists": e, "selection": s, "check_schema": cs}
-                for d in (False, True) for dp in (False, True) for r in (False, True) for e in (False, True) for s in (None, "ids") for cs in (True, False)
+                for d in (False, True) for dp in (False, True) for r in (False, True) for e in (False, True) for s in (None, "ids", "empty") for cs in (True, False)
                 if (dp or not r) and (cs or not d)]
 
     def loops(self, case):
@@ -1223,7 +1223,7 @@ class SyncProjectsCloneOrSync(Contract):
             g["calls"].append(("create_doc_backup", b["self"], b["doc"]))
             return TransparentCM(SPathTok("dst_proxy"))
         ctx.callee_contracts[f"{SY}._FileModifyProxy.create_doc_backup"] = cdb
-        sel = None if case["selection"] is None else [the_job]
+        sel = None if case["selection"] is None else ([the_job] if case["selection"] == "ids" else [])
         kw = dict(source=source, destination=destination, strategy=strategy, exclude="pat", doc_sync=doc_sync, selection=sel, check_schema=case["check_schema"],
                   recursive=case["recursive"], deep=case["deep"], dry_run=case["dry_run"])
         return [], kw, {}
@@ -1237,9 +1237,9 @@ class SyncProjectsCloneOrSync(Contract):
             src_txt = ast.unparse(node)
             g = ctx.ghost
             if src_txt == "{str(j) for j in selection}":
-                return SSelection()
+                return SSelection(case["selection"] == "ids")
             if src_txt == "[job for job in source if job.id in selection]":
-                return [g["job"]]
+                return [g["job"]] if case["selection"] == "ids" else []
             return NotImplemented
         ctx.comprehension = comprehension
         ctx.listify = lambda ex, v, f: [ctx.ghost["job"], ctx.ghost["other"]]
@@ -1263,10 +1263,12 @@ class SyncProjectsCloneOrSync(Contract):
             ex.oblige(self.oname("raises:SchemaSyncConflict_before_any_effect"), z3.BoolVal(isinstance(exc, SchemaSyncConflict) and effects == [] and case["check_schema"]), note=repr(exc))
             return
         clones = [c for c in calls if c[0] == "clone"]
-        sel_jobs = [g["job"]] if case["selection"] else [g["job"], g["other"]]
+        sel_jobs = [g["job"], g["other"]] if case["selection"] is None else ([g["job"]] if case["selection"] == "ids" else [])
         ex.oblige(self.oname("ensures:exactly_the_selected_jobs_are_cloned_or_synchronised"), z3.BoolVal([c[1] for c in clones] == sel_jobs))
         pxs = {id(getattr(c[2], "selfobj", None)) for c in clones}
         px = getattr(clones[0][2], "selfobj", None) if clones else None
+        if not sel_jobs:
+            return
         ex.oblige(self.oname("call[clone]:copies_through_the_proxy_carrying_dry_run"),
                   z3.BoolVal(px is not None and len(pxs) == 1 and px.fields.get("dry_run") is case["dry_run"] and getattr(clones[0][2], "func", None) is not None
                              and clones[0][2].func.qual.endswith("_FileModifyProxy.copytree")))
@@ -1279,14 +1281,19 @@ class SyncProjectsCloneOrSync(Contract):
 
 
 class SSelection(Sym):
+    """{str(j) for j in selection}: the selected id strings (one id, or none)"""
+
+    def __init__(self, nonempty=True):
+        self.nonempty = nonempty
+
     def sym_truth(self, ex):
-        return True
+        return self.nonempty
 
     def sym_len(self, ex):
-        return 1
+        return 1 if self.nonempty else 0
 
     def sym_contains(self, ex, x):
-        return True
+        return self.nonempty
 
 
 CONTRACTS += [SyncJobs(), SyncProjectsCloneOrSync()]
@@ -1471,3 +1478,83 @@ class CreateDocBackup(Contract):
 
 
 CONTRACTS += [CreateBackup(), CreateDocBackup()]
+
+
+# ============================================================================= FileSync strategies
+
+
+class SMtime(Sym):
+    def __init__(self, e):
+        self.e = e
+
+    def sym_compare(self, ex, op, other, reflected=False):
+        if not isinstance(other, SMtime):
+            raise Unsupported("mtime comparison with a non-mtime")
+        a, b = (other.e, self.e) if reflected else (self.e, other.e)
+        return SBool({"Lt": a < b, "LtE": a <= b, "Gt": a > b, "GtE": a >= b}[op])
+
+    def sym_eq(self, ex, other):
+        if isinstance(other, SMtime):
+            return SBool(self.e == other.e)
+        raise Unsupported("mtime ==")
+
+
+class FileSyncStrategies(Contract):
+    target = f"{SY}.FileSync.update"
+    properties = ("C14",)
+
+    def cases(self):
+        return [{"fn": "update"}, {"fn": "always"}, {"fn": "never"}]
+
+    def make_ctx(self, case):
+        ctx = super().make_ctx(case)
+        g = ctx.ghost
+        ctx.externals[os.path.getmtime] = lambda interp, p: SMtime(g["mt"][p.side]) if isinstance(p, SPath) and p.fn is not None else (_ for _ in ()).throw(Unsupported("getmtime"))
+
+        class SStatM(Sym):
+            def __init__(s_, side):
+                s_.side = side
+
+            def sym_getattr(s_, ex, name):
+                if name in ("st_mtime", "st_mtime_ns"):      # the same instant, whatever the unit
+                    return SMtime(g["mt"][s_.side])
+                raise Unsupported("stat field " + name)
+        ctx.externals[os.stat] = lambda interp, p: SStatM(p.side) if isinstance(p, SPath) and p.fn is not None else (_ for _ in ()).throw(Unsupported("os.stat"))
+        return ctx
+
+    def setup(self, interp, case):
+        g = interp.ctx.ghost
+        g["mt"] = {"src": z3.Real("mtime_src"), "dst": z3.Real("mtime_dst")}
+        self.target = f"{SY}.FileSync.{case['fn']}"
+        src, dst = SJobRef("src"), SJobRef("dst")
+        return [src, dst, SFn(z3.Const("thefile", Fn))], {}, {}
+
+    def post(self, interp, case, pre, outcome):
+        ex, g = interp.ex, interp.ctx.ghost
+        name = f"{SY}.FileSync.{case['fn']}"
+        if outcome[0] != "return":
+            ex.oblige(name + "#raises:nothing", False, note=repr(outcome[1]))
+            return
+        r = outcome[1]
+        if case["fn"] == "update":
+            ex.oblige(name + "#ensures:overwrite_iff_the_source_file_is_strictly_newer", r.e == (g["mt"]["src"] > g["mt"]["dst"]) if isinstance(r, SBool) else z3.BoolVal(False))
+        else:
+            ex.oblige(name + f"#ensures:{case['fn']}_is_constant", z3.BoolVal(r is (case["fn"] == "always")))
+
+
+def _mk_strategy_contract(fn):
+    class C(FileSyncStrategies):
+        target = f"{SY}.FileSync.{fn}"
+
+        def cases(self):
+            return [{"fn": fn}]
+
+        def setup(self, interp, case):
+            g = interp.ctx.ghost
+            g["mt"] = {"src": z3.Real("mtime_src"), "dst": z3.Real("mtime_dst")}
+            return [SJobRef("src"), SJobRef("dst"), SFn(z3.Const("thefile", Fn))], {}, {}
+    C.__name__ = "FileSync_" + fn
+    return C()
+
+
+CONTRACTS += [_mk_strategy_contract(f) for f in ("update", "always", "never")]
